@@ -64,6 +64,7 @@ LEAVES = [
 # ======================================================================================
 import ast
 import os
+import re
 
 SRC = os.environ.get('RSA_REPO_SRC', '/repo/src/rsatoolbox')
 HERE = os.path.dirname(os.path.abspath(__file__))
@@ -584,6 +585,84 @@ def _d_est_writes():
     return lines
 
 
+# ---- round 5: the normalisation of calc_rdm_correlation (no additive constants in the norm) ----
+_ROWNORM = ("np.sqrt(np.einsum('ij,ij->i', {v}, {v}))",)
+
+
+def _d_corr_unit():
+    """what `calc_rdm_correlation` does to one element of the centred pattern array between
+    `_parse_input` and `rdm = 1 - ...`, as ONE expression in `ma` (the element) and `rownorm`
+    (= np.sqrt(np.einsum('ij,ij->i', ma, ma)) of its row, the only array call recognised).
+    Statements are substituted into each other; broadcasting subscripts `[:, None]` are dropped.
+    Anything else (np.finfo(...).eps, np.maximum(..), a clip) stays in the text and is either
+    translated (a literal: the proof of `corr_algo_eq_spec` then fails) or untranslatable."""
+    fn = _func('rdm/calc.py', 'calc_rdm_correlation')
+    var, start, stop = None, None, None
+    for k, st in enumerate(fn.body):
+        if isinstance(st, ast.Assign) and isinstance(st.value, ast.Call) \
+                and isinstance(st.value.func, ast.Name) and st.value.func.id == '_parse_input':
+            t = st.targets[0]
+            if not (isinstance(t, ast.Tuple) and isinstance(t.elts[0], ast.Name)):
+                raise Underivable('calc_rdm_correlation: result of _parse_input is not unpacked')
+            var, start = t.elts[0].id, k + 1
+        elif start is not None and isinstance(st, ast.Assign) and _is_name(st.targets[0], 'rdm'):
+            stop = k
+            break
+    if var is None or stop is None:
+        raise Underivable('calc_rdm_correlation: `x, desc = _parse_input(...)` ... `rdm = ...` not found')
+    final = fn.body[stop].value
+    if ast.unparse(final) != f"1 - np.einsum('ik,jk', {var}, {var})":
+        raise Underivable(f'calc_rdm_correlation: rdm = {ast.unparse(final)}')
+    rownorm = {t.format(v=var) for t in _ROWNORM}
+
+    class Sub(ast.NodeTransformer):
+        def __init__(self, env):
+            self.env = env
+
+        def visit(self, node):
+            if isinstance(node, ast.Call) and ast.unparse(node) in rownorm and var not in self.env:
+                return ast.Name(id='rownorm', ctx=ast.Load())
+            return super().visit(node)
+
+        def visit_Name(self, node):
+            if node.id in self.env:
+                return self.env[node.id]
+            return node
+
+        def visit_Subscript(self, node):
+            sl = node.slice
+            if isinstance(sl, ast.Tuple) and len(sl.elts) == 2 and isinstance(sl.elts[0], ast.Slice) \
+                    and sl.elts[0].lower is None and sl.elts[0].upper is None and sl.elts[0].step is None \
+                    and ast.unparse(sl.elts[1]) in ('None', 'np.newaxis'):
+                return self.visit(node.value)        # `[:, None]`: broadcasting only
+            return self.generic_visit(node)
+
+    import copy
+    env = {}
+    for st in fn.body[start:stop]:
+        if isinstance(st, ast.Expr) and isinstance(st.value, ast.Constant):
+            continue
+        if isinstance(st, ast.Assign) and len(st.targets) == 1 and isinstance(st.targets[0], ast.Name):
+            name, val = st.targets[0].id, Sub(env).visit(copy.deepcopy(st.value))
+        elif isinstance(st, ast.AugAssign) and isinstance(st.target, ast.Name):
+            name = st.target.id
+            cur = env.get(name, ast.Name(id=name, ctx=ast.Load()))
+            val = ast.BinOp(left=copy.deepcopy(cur), op=st.op,
+                            right=Sub(env).visit(copy.deepcopy(st.value)))
+        else:
+            raise Underivable(f'calc_rdm_correlation: statement `{ast.unparse(st)}` between '
+                              '_parse_input and the Gram matrix')
+        if name == var and var in env:
+            # the row norm of a second pass would be the norm of the *modified* array
+            raise Underivable(f'calc_rdm_correlation: `{var}` is modified more than once')
+        env[name] = val
+    if var not in env:
+        raise Underivable(f'calc_rdm_correlation: `{var}` is not normalised before the Gram matrix')
+    text = ast.unparse(ast.fix_missing_locations(env[var]))
+    text = re.sub(r'\b%s\b' % re.escape(var), 'ma', text) if var != 'ma' else text
+    return [f'    return {text}']
+
+
 _DERIVED_FUNCS = [
     # name, params, body builder
     ('dispatch', ['method'], _d_dispatch),
@@ -625,6 +704,7 @@ _DERIVED_FUNCS = [
     ('parse_shares', ['has_desc'], _d_parse_shares),
     ('centre_in_place', [], _d_centre_in_place),
     ('est_writes', ['est'], _d_est_writes),
+    ('corr_unit', ['ma', 'rownorm'], _d_corr_unit),
 ]
 
 
@@ -690,4 +770,6 @@ LEAVES += [
     _leaf('parseShares', 'parse_shares', {'has_desc': 'Nat'}, 'Nat'),
     _leaf('centreInPlace', 'centre_in_place', {}, 'Nat'),
     _leaf('estWrites', 'est_writes', {'est': 'Nat'}, 'Nat'),
+    # round 5: normalisation statement(s) of calc_rdm_correlation, element-wise
+    _leaf('corrUnit', 'corr_unit', {'ma': 'A', 'rownorm': 'A'}, 'A'),
 ]
